@@ -3,6 +3,7 @@ from __future__ import annotations
 
 import io
 import os
+import re
 import shutil
 import tempfile
 from typing import List, Optional, Sequence, Tuple
@@ -235,6 +236,16 @@ def recase(line: str, rng) -> str:
     return out
 
 
+def inner_ws(line: str, ws: str) -> str:
+    """every run of blanks outside double quotes (after the indentation) replaced by `ws`."""
+    body = line.rstrip("\n")
+    lead = body[: len(body) - len(body.lstrip(" "))]
+    segs = body[len(lead):].split('"')
+    for k in range(0, len(segs), 2):
+        segs[k] = re.sub(" +", lambda m: ws, segs[k])
+    return lead + '"'.join(segs) + "\n"
+
+
 def cosmetic_variants(rng, lines: List[str], budget: int):
     """single transformations at every line position + combinations."""
     n = len(lines)
@@ -261,6 +272,14 @@ def cosmetic_variants(rng, lines: List[str], budget: int):
             v = list(lines)
             v.insert(i, "  " + u + "\n")
             yield ("unknown", i), v
+    # 6. the blanks BETWEEN the fields of a line (outside quotes) replaced by tabs / several blanks (S132: the
+    #    patterns separate fields by `\s+`; a keyword must not be found by splitting at a literal blank)
+    for i in range(n):
+        v = list(lines)
+        v[i] = inner_ws(v[i], rng.choice(["\t", "  ", " \t ", "\x0b", "\t\t"]))
+        yield ("innerws", i), v
+    v = [inner_ws(l, "\t") for l in lines]
+    yield ("innerws", -1), v
     # 5. everything at once, random subsets
     for _ in range(max(5, budget // 50)):
         v = []
